@@ -461,7 +461,7 @@ class QSim:
 # ======================================================================================================
 # 2. TLC: configurations, state-graph export, trace validation
 # ======================================================================================================
-AS_CODED = {"AllowStaleOps": "TRUE", "FencedOps": "FALSE", "SweepLocked": "TRUE", "ReplayDefaultLimit": "TRUE",
+AS_CODED = {"AllowStaleOps": "TRUE", "FencedOps": "FALSE", "SweepLocked": "TRUE", "ReplayDefaultLimit": "FALSE",   # FALSE since fix 640e2a4
             "DanglingTxn": "TRUE"}
 INTENDED = {"AllowStaleOps": "FALSE", "FencedOps": "FALSE", "SweepLocked": "FALSE", "ReplayDefaultLimit": "FALSE",
             "DanglingTxn": "TRUE"}
@@ -1026,10 +1026,10 @@ DEFECTS = {
     "sweptInFlight": {"switch": "SweepLocked", "coded": "TRUE", "fixed": "FALSE", "qmax": QMAX, "formulas": ["OneHolder"],
                       "cex": dict(nclients=2, nmsgs=1, replays=1, crashes=0, notfound=0, invariants=["OneHolder"]),
                       "cex_switches": {"AllowStaleOps": "FALSE"}},
-    "replayLimit": {"switch": "ReplayDefaultLimit", "coded": "TRUE", "fixed": "FALSE", "qmax": QMAX,
-                    "formulas": ["NoStrandedRow", "ReplayUnchanged"],
-                    "cex": dict(nclients=1, nmsgs=1, replays=1, crashes=0, notfound=0, invariants=["NoStrandedRow"]),
-                    "cex_switches": {"AllowStaleOps": "FALSE", "SweepLocked": "FALSE"}},
+    # ("replayLimit" - replay_dlq re-inserting with the column default max_attempts - was repaired in /repo by
+    #  640e2a4: AS_CODED now has ReplayDefaultLimit = FALSE, so a return of that behaviour is a conformance
+    #  rejection / ReplayUnchanged failure like any other; the switch stays in Queue.tla for the live-ascoded-replay
+    #  model configuration that documents the stranded-row lasso.)
     # not a defect of C08 but a coded behaviour the binding depends on (observation O1)
     "danglingTxn": {"switch": "DanglingTxn", "coded": "TRUE", "fixed": "FALSE", "qmax": QMAX, "observation": True,
                     "formulas": [],
